@@ -8,6 +8,8 @@
 //	dial  through ParseArgs + Dial on a scripted conn: genuine / forged / modified exchanges,
 //	      a client configured with another node ID or public key
 //	srv   reference client <-> real server (WrapConn): genuine, and with a wrong identity
+//	pads  genuine real client <-> real server with steered padding: client min/min+1/max-1/max (request
+//	      141..8192 bytes) x server 0/max x one piece/chunked: must complete, same keys, data both ways
 //	wrongid a real client configured (ParseArgs, both formats) with EVERY single-bit change of the
 //	      bridge line (160 node-id + 256 public-key bits) dials the genuine real server: must fail
 //	fresh 8 WrapConn calls overlapping on one factory + 8 sequential ones: pairwise distinct Y',
@@ -1032,6 +1034,139 @@ func runFresh(c ccase) (retry bool) {
 	return false
 }
 
+// ---------------------------------------------------------------- pads: genuine pair at the ends of the padding ranges
+
+// runPads: genuine real client <-> genuine real server with the random tape steered so that the
+// client's padding is min / min+1 / max-1 / max (request 141 / 142 / 8191 / 8192 bytes) and the
+// server's padding 0 / max (response + seed frame 141 / 8192 bytes), each delivered in one piece
+// and chunked.  The pair must complete, both ends must hold the keys the reference derives from
+// the client's random bytes, and data must flow both ways.
+func runPads(c ccase) (retry bool) {
+	rng := vlib.NewRng(c.CaseSeed)
+	o4h.InstallTape(c.CaseSeed)
+	tape := o4h.Tape
+	id := o4h.NewIdentity(rng, 0)
+	sf := id.ServerFactory()
+	cf := o4h.ClientFactory()
+	cMin, cMax := cint("clientMinPadLength"), cint("clientMaxPadLength")
+	sMax := cint("serverMaxPadLength")
+	for _, cp := range []int{cMin, cMin + 1, cMax - 1, cMax} {
+		for _, sp := range []int{0, sMax} {
+			for _, chunk := range []string{"whole", "chunked"} {
+				what := fmt.Sprintf("client padding %d (request %d bytes), server padding %d, %s", cp, cint("clientMinHandshakeLength")+cp, sp, chunk)
+				hour0 := o4h.Hour()
+				m := tape.Mark()
+				args, err := cf.ParseArgs(id.ClientArgs([]string{"cert", "legacy"}[(cp+sp)%2], 0))
+				if err != nil {
+					violate("parseargs-rejects-bridge-line", "impl-oracle", err.Error(), c)
+					return
+				}
+				tape.Steer = append(rng.Bytes(24), o4h.IntRangeSteer(cp-cMin)...)
+				cep, fin := o4h.StartDial(cf, args)
+				if fin {
+					violate("dial-returned-before-response", "impl-oracle", what, c)
+					continue
+				}
+				blob := cep.Conn.TakeWritten()
+				cliTape := tape.Since(m)
+				r.Case(c.key()+"|"+what, true)
+				r.Count("pads", fmt.Sprintf("client-%d/server-%d/%s", cp, sp, chunk))
+				if len(blob) != cint("clientMinHandshakeLength")+cp {
+					violate("pad-steering-failed", "correspondence", fmt.Sprintf("%s: the client wrote %d bytes", what, len(blob)), c)
+				}
+				tape.Steer = append(o4h.GoodKeySeed(rng), o4h.IntRangeSteer(sp)...)
+				sep, sfin := o4h.StartWrap(sf)
+				sizes := func(n int) []int {
+					if chunk == "whole" {
+						return nil
+					}
+					return o4h.Chunks(rng, vlib.Pick(rng, []string{"mss", "random", "two", "bounds"}), n, []int{32, n - 32, n - 16, n - 1})
+				}
+				abort := func() {
+					for _, ep := range []*o4h.Endpoint{cep, sep} {
+						if !ep.Op.Done() {
+							ep.Conn.FeedErr(vlib.TimeoutError{})
+							ep.Conn.Wait(ep.Op)
+						}
+						ep.Conn.Close()
+					}
+				}
+				if sfin {
+					violate("wrapconn-returned-before-input", "impl-oracle", what, c)
+					abort()
+					continue
+				}
+				sep.Conn.FeedChunks(blob, sizes(len(blob)))
+				sdone := sep.Conn.Wait(sep.Op)
+				if o4h.Hour() != hour0 {
+					abort()
+					return true
+				}
+				sconn, serr := sep.Result()
+				if !sdone || serr != nil {
+					violate("genuine-client-rejected-by-server", "impl-oracle",
+						fmt.Sprintf("%s: the genuine server does not complete the handshake of a correct client (WrapConn done=%v err=%v, %d bytes written)", what, sdone, serr, len(sep.Conn.TakeWritten())), c)
+					abort()
+					continue
+				}
+				resp := sep.Conn.TakeWritten()
+				cep.Conn.FeedChunks(resp, sizes(len(resp)))
+				cdone := cep.Conn.Wait(cep.Op)
+				cconn, cerr := cep.Result()
+				if !cdone || cerr != nil {
+					violate("genuine-server-rejected-by-client", "impl-oracle", fmt.Sprintf("%s: Dial done=%v err=%v on the %d-byte response", what, cdone, cerr, len(resp)), c)
+					abort()
+					continue
+				}
+				if rd, wr, tr := o4h.DeadlinesArmed(cep.Conn); rd || wr {
+					violate("deadline-armed-after-dial", "impl-oracle", fmt.Sprintf("%s: read=%v write=%v (%s)", what, rd, wr, tr), c)
+				}
+				// the reference, from the client's random bytes alone, derives the same handshake and keys
+				sh := ref.Fresh("c")
+				rep := ref.CliNew(sh, id.NodeID, id.Pub, cliTape, hour0)
+				r.Validated(1)
+				if rep.Class != "ok" || !bytes.Equal(rep.Data, blob) {
+					violate("client-handshake-bytes-differ", "correspondence", fmt.Sprintf("%s: reference derives %s len %d", what, rep.Class, len(rep.Data)), c)
+				}
+				fr := ref.CliFeed(sh, resp)
+				if fr.Class != "ok" {
+					violate("genuine-server-rejected-by-client", "impl-oracle", what+": the reference client answers "+fr.Raw, c)
+				}
+				ref.Dec(sh, nil)
+				tsess := ref.Fresh("t")
+				ref.LinkSwap(sh, tsess)
+				okData := true
+				for i := 0; i < 2 && okData; i++ {
+					p := rng.Bytes(rng.Range(1, 3000))
+					w := o4h.WriteOn(cep.Conn, cconn, p, 60*time.Second)
+					sep.Conn.Feed(w.Wire())
+					got, blocked, rerr := o4h.ReadN(sep.Conn, sconn, len(p))
+					d := ref.Dec(tsess, w.Wire())
+					if rerr != nil || blocked || !bytes.Equal(got, p) || d.Class != "ok" || !bytes.Equal(d.Payload(), p) {
+						violate("genuine-upstream-data-lost", "impl-oracle", fmt.Sprintf("%s: client wrote %d bytes, server read %d (blocked=%v err=%v), reference with the client's keys decodes %s", what, len(p), len(got), blocked, rerr, d.Class), c)
+						okData = false
+						break
+					}
+					p = rng.Bytes(rng.Range(1, 3000))
+					w = o4h.WriteOn(sep.Conn, sconn, p, 60*time.Second)
+					cep.Conn.Feed(w.Wire())
+					got, blocked, rerr = o4h.ReadN(cep.Conn, cconn, len(p))
+					d = ref.Dec(sh, w.Wire())
+					if rerr != nil || blocked || !bytes.Equal(got, p) || d.Class != "ok" || !bytes.Equal(d.Payload(), p) {
+						violate("genuine-downstream-data-lost", "impl-oracle", fmt.Sprintf("%s: server wrote %d bytes, client read %d (blocked=%v err=%v), reference decodes %s", what, len(p), len(got), blocked, rerr, d.Class), c)
+						okData = false
+					}
+				}
+				ref.Drop(sh)
+				ref.Drop(tsess)
+				cep.Conn.Close()
+				sep.Conn.Close()
+			}
+		}
+	}
+	return false
+}
+
 // ---------------------------------------------------------------- wrongid: every single-bit change of the bridge line
 
 // certBit flips bit `bit` of NODEID (0..159) | PUBLIC KEY (160..415) of the identity.
@@ -1309,6 +1444,8 @@ func run(c ccase) {
 			retry = runFresh(c)
 		case "wrongid":
 			retry = runWrongID(c)
+		case "pads":
+			retry = runPads(c)
 		case "conc":
 			runConc(c)
 		}
@@ -1389,6 +1526,9 @@ func main() {
 			sc.HourOff = []int{-1, 0, 1}[(i/2)%3] // the reference client's clock
 		}
 		run(sc)
+	}
+	for i, n := 0, r.Scale(1, 12); i < n; i++ {
+		run(ccase{Family: "pads", Kind: "client-min/min+1/max-1/max-x-server-min/max-x-whole/chunked", CaseSeed: rng.U64(), Format: "both", Chunk: "both"})
 	}
 	for i, n := 0, r.Scale(1, 12); i < n; i++ {
 		run(ccase{Family: "wrongid", Kind: "all-416-cert-bits-x-2-formats", CaseSeed: rng.U64(), Format: "both", Chunk: "whole"})
